@@ -3,9 +3,15 @@ package main
 
 import (
 	"bytes"
+	"context"
 	"fmt"
 	"io"
 	"strings"
+	"sync/atomic"
+	"time"
+
+	"github.com/gotd/td/mtproto"
+	"github.com/gotd/td/proto"
 
 	"github.com/gotd/td/bin"
 	"github.com/gotd/td/crypto"
@@ -136,9 +142,40 @@ func coqDec(o decObs) string {
 
 var errNames = map[int]string{0: "accepted", 2: "short", 3: "key-id", 4: "align", 5: "msg-key", 6: "len-big", 7: "len-neg", 8: "len-mod4", 9: "pad-big", 12: "pad-small", 50: "other-error", 99: "panic"}
 
+// dirty runs other exported users of package-level pooled state (hashers, buffers, gzip writers) with
+// unrelated data, in a PRNG-chosen mix, right before the call under test: a derivation function must not
+// depend on what ran before it in the same process.
+var dirtyRng = hx.NewRand(0xD1127)
+
+func dirty() {
+	r := dirtyRng
+	start := r.Intn(5)
+	for i := 0; i < 5; i++ { // every user once, rotating order
+		switch (start + i) % 5 {
+		case 0:
+			_ = crypto.SHA256(r.Bytes(r.Intn(200)))
+		case 1:
+			_ = crypto.SHA256(r.Bytes(r.Intn(70)), r.Bytes(1+r.Intn(70)))
+		case 2:
+			var k crypto.Key
+			copy(k[:], r.Bytes(256))
+			_ = k.ID()
+			_ = crypto.MessageKeyV1(r.Bytes(r.Intn(100)))
+		case 3:
+			var k crypto.Key
+			copy(k[:], r.Bytes(256))
+			_ = crypto.MessageKey(k, r.Bytes(16*r.Intn(8)), crypto.Side(r.Intn(2)))
+		default:
+			_, _ = crypto.RandInt128(r)
+			_ = crypto.SHA256(nil)
+		}
+	}
+}
+
 // run one attempt on the real code under the oracle; emit => also a Coq correspondence case.
 func run(c *hx.Ctx, t tc, emit bool) decObs {
 	c.Obs.Evaluations++
+	dirty()
 	o := decrypt(t.Side, mkKey(t.Key, t.KeyID), t.CT)
 	sh, ix := -1, 0
 	if emit {
@@ -227,8 +264,176 @@ func region(bit int) string {
 	}
 }
 
+// ---------- connection level: a real mtproto.Conn (optionally PFS: temporary + permanent key) ----------
+type nullTransport struct{}
+
+func (nullTransport) Send(context.Context, *bin.Buffer) error        { return nil }
+func (nullTransport) Recv(ctx context.Context, _ *bin.Buffer) error { <-ctx.Done(); return ctx.Err() }
+func (nullTransport) Close() error                                  { return nil }
+
+type countHandler struct{ n *int32 }
+
+func (h countHandler) OnMessage(*bin.Buffer) error     { atomic.AddInt32(h.n, 1); return nil }
+func (h countHandler) OnSession(mtproto.Session) error { return nil }
+
+// ccase: a frame presented to a connection whose session key is Key (and permanent key Perm in PFS mode).
+type ccase struct {
+	Conn    bool   `json:"conn"`
+	Class   string `json:"class"`
+	PFS     bool   `json:"pfs"`
+	Key     []byte `json:"key"`
+	Perm    []byte `json:"perm,omitempty"`
+	Session int64  `json:"session"`
+	Frame   []byte `json:"frame"`
+	Expect  string `json:"expect"`
+}
+
+func withID(v []byte) crypto.AuthKey {
+	var k crypto.Key
+	copy(k[:], v)
+	return k.WithID()
+}
+
+func newPFSConn(t ccase, reached *int32) *mtproto.Conn {
+	opt := mtproto.Options{Key: withID(t.Key), Salt: 5, Handler: countHandler{n: reached}, EnablePFS: t.PFS}
+	if len(t.Perm) > 0 {
+		opt.PermKey = withID(t.Perm)
+	}
+	conn := mtproto.VerifNew(opt, mtproto.VerifConfig{Transport: nullTransport{}, SessionID: t.Session})
+	// state after the key exchange: in PFS mode the session key is the temporary key (New clears Options.Key there)
+	conn.VerifSetAuthKey(withID(t.Key))
+	return conn
+}
+
+func classifyWrapped(err error) (int, string) {
+	if err == nil {
+		return 0, ""
+	}
+	s := err.Error()
+	for _, e := range []struct {
+		sub  string
+		code int
+	}{{"unexpected EOF", 2}, {"unknown auth key id", 3}, {"invalid encrypted data padding", 4}, {"msg_key is invalid", 5},
+		{"MessageDataLen field", 6}, {"less than zero", 7}, {"not divisible by 4", 8}, {"is too big", 9}, {"is too small", 12}} {
+		if strings.Contains(s, e.sub) {
+			return e.code, s
+		}
+	}
+	return 50, s // rejected above the cipher (session id, message id window, replay buffer)
+}
+
+// runConnCase: the frame goes through Conn.decryptMessage (verdict) and, on a second identical connection,
+// through the whole per-frame read path (does it reach the handler?).
+func runConnCase(c *hx.Ctx, t ccase, emit bool) {
+	c.Obs.Evaluations++
+	dirty()
+	var reached int32
+	var d *crypto.EncryptedMessageData
+	var err error
+	p, pv := hx.Recover(func() {
+		d, err = newPFSConn(t, new(int32)).VerifDecryptMessage(&bin.Buffer{Buf: append([]byte(nil), t.Frame...)})
+	})
+	var cerr error
+	p2, pv2 := hx.Recover(func() {
+		ctx, cancel := context.WithTimeout(context.Background(), 2*time.Second)
+		defer cancel()
+		cerr = newPFSConn(t, &reached).VerifConsumeMessage(ctx, &bin.Buffer{Buf: append([]byte(nil), t.Frame...)})
+	})
+	_ = cerr
+	code, etxt := classifyWrapped(err)
+	o := decObs{Code: code, Err: etxt}
+	if err == nil && d != nil {
+		o.Salt, o.Session, o.MsgID, o.SeqNo, o.MLen = d.Salt, d.SessionID, d.MessageID, d.SeqNo, d.MessageDataLen
+		o.Body = append([]byte(nil), d.MessageDataWithPadding...)
+	}
+	mode := "plain"
+	if t.PFS {
+		mode = "pfs"
+	}
+	verdict := errNames[code]
+	if code == 50 {
+		verdict = "rejected-by-connection"
+	}
+	c.Count(fmt.Sprintf("conn(%s):%s -> %s, handler=%d", mode, t.Class, verdict, reached))
+	sh, ix := -1, 0
+	if emit && code != 50 {
+		// the connection decrypts with its session key on the client side: same model function
+		k := withID(t.Key)
+		sh, ix = c.Case(hx.Tuple("0", hx.PackedBytes(t.Key), hx.PackedBytes(k.ID[:]), hx.PackedBytes(t.Frame), coqDec(o)), t)
+	}
+	switch {
+	case p || p2:
+		c.Violate("decrypt-panic", fmt.Sprintf("connection read path panicked on a %s frame: %v %v", t.Class, pv, pv2), sh, ix, t)
+	case t.Expect == "reject" && (err == nil || reached > 0):
+		c.Violate("conn-accepted:"+strings.SplitN(t.Class, ":", 2)[0], fmt.Sprintf("%s connection accepted a %s frame (decryptMessage error: %v; handler reached %d time(s))", mode, t.Class, err, reached), sh, ix, t)
+	case t.Expect == "accept" && (err != nil || reached != 1):
+		c.Violate("valid-rejected", fmt.Sprintf("%s connection rejected a genuine frame under its session key: %v (handler reached %d)", mode, err, reached), sh, ix, t)
+	}
+	if t.Expect == "reject" {
+		c.Nontrivial("conn/" + mode + "/" + t.Class + fmt.Sprintf("/%x", hxsum(t.Frame)))
+	}
+}
+
+// sealFrame: what a server (or a reflecting client: side 0) would send under key k.
+func sealFrame(r *hx.Rand, side int, k crypto.AuthKey, session int64, msgID int64, payload []byte) []byte {
+	var buf bin.Buffer
+	data := crypto.EncryptedMessageData{Salt: 5, SessionID: session, MessageID: msgID, SeqNo: 2, Message: raw(payload)}
+	if err := cipherFor(side, r.Fork()).Encrypt(k, data, &buf); err != nil {
+		panic(err)
+	}
+	return append([]byte(nil), buf.Buf...)
+}
+
+func connSection(c *hx.Ctx) {
+	r := c.Rng
+	for i := 0; i < c.N(12, 200); i++ {
+		for _, pfs := range []bool{true, false} {
+			temp, perm, third := r.Bytes(256), r.Bytes(256), r.Bytes(256)
+			session := int64(r.U64())
+			fresh := func() int64 { return int64(proto.NewMessageID(time.Now(), proto.MessageFromServer)) + int64(r.Intn(1000))*4 }
+			// an unknown constructor id: handleMessage hands it to the user's handler
+			payload := append([]byte{0x11, 0x22, 0x33, 0x44}, r.Bytes(4*r.Intn(20))...)
+			base := ccase{Conn: true, PFS: pfs, Key: temp, Session: session}
+			if pfs || r.Bool() {
+				base.Perm = perm
+			}
+			mk := func(class, expect string, frame []byte) ccase {
+				t := base
+				t.Class, t.Expect, t.Frame = class, expect, frame
+				return t
+			}
+			em := i < c.N(3, 12)
+			runConnCase(c, mk("valid(session key)", "accept", sealFrame(r, 1, withID(temp), session, fresh(), payload)), em)
+			// foreign keys: the permanent key of the same account, an unrelated key, unrelated keys that present
+			// the session key's id or the permanent key's id
+			runConnCase(c, mk("foreign-key:permanent-key", "reject", sealFrame(r, 1, withID(perm), session, fresh(), payload)), em)
+			runConnCase(c, mk("foreign-key:unrelated", "reject", sealFrame(r, 1, withID(third), session, fresh(), payload)), em)
+			k3 := withID(third)
+			k3.ID = withID(temp).ID
+			runConnCase(c, mk("foreign-key:unrelated-with-session-key-id", "reject", sealFrame(r, 1, k3, session, fresh(), payload)), em)
+			k3.ID = withID(perm).ID
+			runConnCase(c, mk("foreign-key:unrelated-with-permanent-key-id", "reject", sealFrame(r, 1, k3, session, fresh(), payload)), false)
+			// reflection of a client frame, under either key
+			runConnCase(c, mk("reflection:session-key", "reject", sealFrame(r, 0, withID(temp), session, fresh(), payload)), em)
+			runConnCase(c, mk("reflection:permanent-key", "reject", sealFrame(r, 0, withID(perm), session, fresh(), payload)), false)
+			// tampered genuine frame
+			g := sealFrame(r, 1, withID(temp), session, fresh(), payload)
+			runConnCase(c, mk("bit-flip", "reject", flip(g, r.Intn(len(g)*8))), em)
+			gp := sealFrame(r, 1, withID(perm), session, fresh(), payload)
+			runConnCase(c, mk("bit-flip:of-permanent-key-frame", "reject", flip(gp, 64+r.Intn(len(gp)*8-64))), false)
+		}
+	}
+}
+
 func main() {
 	c := hx.Start("C05", "Run.Check_C05", 12)
+	var rc ccase
+	if c.Replay != "" && c.LoadReplay(&rc) && rc.Conn {
+		runConnCase(c, rc, true)
+		fmt.Printf("replay: connection (pfs=%v) class=%s -> violations=%d\n", rc.PFS, rc.Class, len(c.Obs.Violations))
+		c.Finish()
+		return
+	}
 	var rp tc
 	if c.LoadReplay(&rp) {
 		o := run(c, rp, true)
@@ -360,6 +565,8 @@ func main() {
 		}
 		run(c, tc{Class: "crafted:small-padding(no claim)", Side: 1 - b.side, Key: b.key, KeyID: b.keyID, CT: append([]byte(nil), buf.Buf...), Expect: "none"}, true)
 	}
+	// 3c. the same claims at the connection level (mtproto.Conn read path), with and without PFS
+	connSection(c)
 	// 4. arbitrary short / random inputs (totality)
 	for i := 0; i < c.N(40, 1000); i++ {
 		n := r.Intn(120)
@@ -373,6 +580,6 @@ func main() {
 		}
 		run(c, tc{Class: "random-bytes", Side: r.Intn(2), Key: b, KeyID: id[:], CT: ct, Expect: "reject"}, emitEvery(i, 4))
 	}
-	c.Obs.Rule = "mutants of valid ciphertexts produced by Cipher.Encrypt (payload 0..128 bytes): every single bit of one 72-byte message; per base message single bits per region, multi-bit, truncation to multiples of 16 and ragged, extensions, block swap, splice, reflection (same side decrypts), foreign keys (other id / same id / one key byte), random byte strings. Oracle on the implementation: any accepted mutant, a panic, or data returned with an error is a violation. A rotating sample of every class (plus the valid originals) is evaluated in Coq and must give the same verdict / error class / decoded message. Every input is presented through all three entry points (DecryptFromBuffer, Decode+Decrypt, DecodeWithoutCopy+Decrypt), which must agree and must not panic. non-trivial = distinct rejected-expected mutant"
+	c.Obs.Rule = "mutants of valid ciphertexts produced by Cipher.Encrypt (payload 0..128 bytes): every single bit of one 72-byte message; per base message single bits per region, multi-bit, truncation to multiples of 16 and ragged, extensions, block swap, splice, reflection (same side decrypts), foreign keys (other id / same id / one key byte), random byte strings. Oracle on the implementation: any accepted mutant, a panic, or data returned with an error is a violation. A rotating sample of every class (plus the valid originals) is evaluated in Coq and must give the same verdict / error class / decoded message. Connection level: real mtproto.Conn objects (plain and PFS with a distinct permanent key) receive genuine frames under the session key (must reach the handler exactly once) and frames under the permanent key, unrelated keys (own id / session key id / permanent key id), reflected client frames and bit-flipped frames (must be refused by decryptMessage and never reach the handler). Every input is presented through all three entry points (DecryptFromBuffer, Decode+Decrypt, DecodeWithoutCopy+Decrypt), which must agree and must not panic. non-trivial = distinct rejected-expected mutant"
 	c.Finish()
 }
